@@ -452,6 +452,11 @@ SPECS["C15"] = {
          "reach": ["compared"],
          "quick": {"params": {"CMDS": 16}, "unwind": 60, "wall_s": 900},
          "thorough": {"params": {"CMDS": 24}, "unwind": 60, "wall_s": 3000}},
+        {"name": "H4-breakpoint-book", "pkg": "interpreter", "files": _C15, "fn": "VerifC15BreakpointBook",
+         "what": "2 (quick) / 3 (thorough) symbolic breakpoint commands (break, disablebreak, rmbreak line, rmbreak source) over 3 sources with names in a prefix relation x 2 lines, then a program whose source name is symbolic: suspensions equal the table",
+         "reach": ["compared"],
+         "quick": {"params": {"OPS": 2}, "unwind": 60, "wall_s": 900},
+         "thorough": {"params": {"OPS": 3}, "unwind": 60, "wall_s": 3000}},
     ],
     "assumptions": ["pre-emptions only at discovered racy sites", "deterministic schedule in the transparency harness"],
     "outside": ["telnet debug server and CLI", "sinks on several workers under debugging", "breakonstart/breakonerror flags"],
@@ -566,6 +571,9 @@ SPECS["C04"] = {
         {"name": "H2-loop-nest", "pkg": "interpreter", "files": _C04, "fn": "VerifC04LoopNest",
          "what": "4x4 loop kinds (range, list, map, condition) nested, break/continue at symbolic positions in both loops, optionally inside a function with return from the inner loop", "reach": ["evaluated"],
          "quick": {"unwind": 80, "wall_s": 900, "max_steps": 3000000}, "thorough": {"unwind": 80, "wall_s": 3000, "max_steps": 3000000}},
+        {"name": "H2-map-loop", "pkg": "interpreter", "files": _C04, "fn": "VerifC04MapLoop",
+         "what": "loop over a map of 3 keys chosen from 8 (numbers, strings, booleans, pairs with the same string form), [k, v] and single-variable form: once per element, keys in string order", "reach": ["evaluated"],
+         "quick": {"unwind": 80, "wall_s": 600}, "thorough": {"unwind": 80, "wall_s": 1500}},
         {"name": "H3-guards-return", "pkg": "interpreter", "files": _C04, "fn": "VerifC04Guards",
          "what": "if/elif/else guards, return from nested functions", "reach": ["evaluated"],
          "quick": {"unwind": 60, "wall_s": 900}, "thorough": {"unwind": 60, "wall_s": 3000}},
